@@ -79,7 +79,7 @@ def d21_make_child_pops_root(prop, mech, case, info, variant):
     empty root segment and the following segment is promoted into its place
     (an empty segment is lost, e.g. URL('http://h') / '..//b' -> '/b' instead of
     '//b').  Bug model: result == normalisation with a poppable root marker."""
-    if mech != "path_mismatch" or case.get("entry") not in ("div", "joinpath_all", "joinpath_steps"):
+    if mech != "path_mismatch" or case.get("entry") not in ("div", "joinpath_all", "joinpath_steps", "joinpath_grouped"):
         return False
     spliced = info.get("_spliced")
     got = info.get("got")
@@ -148,7 +148,9 @@ def d22_multidict_update_drop_tails(prop, mech, case, info, variant):
     arg = info.get("_arg")
     for news in info.get("_alts", []):
         m = MultiDict(old)
-        if info.get("_form") in ("dict", "mdict", "cimdict", "kwargs"):
+        from collections.abc import Mapping as _Mapping
+
+        if isinstance(arg, _Mapping):  # every Mapping flavour takes update_query's mapping branch
             # yarl hands the mapping over as it is (sequence values are expanded when serialising)
             m.update(arg)
             dep = []
